@@ -45,7 +45,7 @@ def run(case):
         if op[0] == "create":
             u = start(client, timeout=op[1]); ids.append(u); last[u] = now()
             tmo[u] = sum(UNIT_SECONDS[k] * v for k, v in op[1].items())
-            objs[u] = id(app._instance_manager._instances[u]["instance"])
+            objs[u] = app._instance_manager._instances[u]["instance"]._verif_serial
             begin(client, u); last[u] = now()
             bad = expect(step)
         elif op[0] == "advance":
